@@ -386,8 +386,12 @@ func TestVerifC01(t *testing.T) {
 		case 1: // long names (token cap 4096 bytes of text)
 			n := kit.Pick(c.Rng, []int{127, 128, 1000, 1300})
 			name := pdf.Name(c.Rng.BytesFrom(gen.Sigma, n))
-			if c.Rng.Bool() {
+			switch c.Rng.Intn(3) {
+			case 0:
 				name = pdf.Name(c.Rng.BytesFrom([]byte("abcdefghijklmnopqrstuvwxyz"), kit.Pick(c.Rng, []int{2000, 4000, 4090})))
+			case 1:
+				// every byte needs a #xx escape: the written token is three times as long as the name
+				name = pdf.Name(c.Rng.BytesFrom([]byte("#()<>[]{}/% \x00\t\r\n\x7f\x80\xff"), kit.Pick(c.Rng, []int{1365, 1366, 1400, 2048, 4000, 4090})))
 			}
 			c01Contexts(c, "limits/name", opt, []pdf.Object{name, pdf.Integer(1)})
 			c.R.Seen("name-lengths", fmt.Sprint(len(name)))
